@@ -3,6 +3,8 @@ import functools
 import itertools
 
 from core import fseq, fcells, fbool, pseq, pcells, guarded
+import used
+import past
 
 PROP = "C18"
 RULE = ("exhaustive: every mesh pattern of length <= 2 (all 2+16+1024 shadings) x every cell / every ordered pair of "
@@ -11,7 +13,11 @@ RULE = ("exhaustive: every mesh pattern of length <= 2 (all 2+16+1024 shadings) 
         "containing permutations over ALL permutations of length <= 6 (7 thorough) with a mesh containment written from the "
         "definition; non-trivial = the implementation licensed a shading (cs/css/sbl = T), the list/table is non-empty, "
         "add_point succeeded on a non-empty shading, the rectangle has >= 2 cells, the pattern has >= 1 point; "
-        "distinct = distinct op lines")
+        "distinct = distinct op lines; large: the structural ops on patterns of length 9-12, 21-40, 64-70 and a few "
+        "around 200 (cells around points, at the border, next to shaded cells; bands with one hole at the far end); "
+        "objects with a past: on a deterministic twelfth of the lines the pattern is fresh / used / derived from a used "
+        "object through another API route (past.mkmesh2: shade() of a used pattern, symmetries and back, unrank, "
+        "add_point + sub_mesh_pattern, copies); returned lists / dicts / sets are damaged and the call is repeated")
 ASSUMPTIONS = [
     "model/implementation agreement outside the enumerated and sampled inputs is assumed",
     "the oracle judges licensed shadings and add_point against permutations of length <= 6 (quick) / 7 (thorough) only; the universally quantified statements are the Lean theorems can_shade_sound, can_simul_shade_sound, shadable_boxes_sound, add_point_spec",
@@ -41,11 +47,25 @@ def fmp(m):
     return fmesh(tuple(m.pattern), m.shading)
 
 
+_DERIVE = [False]     # selected lines: the pattern is an object with a past (past.mkmesh2), see impl
+_OBJ = {}
+
+
 def mk(a):
     """the pattern object under test, *after it has been used*: a few other queries are issued on
     the same object first (point insertions in other directions, a shading-lemma query), so that
-    any state an object keeps between calls is exercised; results of the warm-up are discarded"""
-    m = MeshPatt(Perm(pseq(a[0])), pcells(a[1]))
+    any state an object keeps between calls is exercised; results of the warm-up are discarded.
+    On the selected lines the object comes from past.mkmesh2 (fresh / used / derived from a used object through
+    another API route: symmetries and back, shade(), unrank, add_point + sub_mesh_pattern, copies, ...) and the
+    second evaluation of the line receives the same object."""
+    if _DERIVE[0]:
+        key = (a[0], a[1])
+        if key in _OBJ:
+            return _OBJ[key]
+        m = past.mkmesh2(pseq(a[0]), pcells(a[1]), 2)
+        _OBJ[key] = m
+    else:
+        m = MeshPatt(Perm(pseq(a[0])), pcells(a[1]))
     n = len(m.pattern)
     cells = []
     if len(a) > 2:
@@ -55,7 +75,7 @@ def mk(a):
             cells = []
     cells.append((n, n))
     for c in cells:
-        for d in (2, 0, 3, -1):
+        for d in ((2, 0, 3, -1) if n < 9 else (2,)):     # (long patterns: one insertion per cell, each costs O(|shading|))
             try:
                 m.add_point(c, d)
             except Exception:
@@ -65,6 +85,53 @@ def mk(a):
         except Exception:
             pass
     return m
+
+
+def redo(call, fmt, damage):
+    """fmt(call()); on the selected lines the returned container is damaged afterwards and the call is repeated
+    (same object, same arguments): the second answer must be that of a first call"""
+    r = call()
+    out = fmt(r)
+    if not _DERIVE[0]:
+        return out
+    try:
+        damage(r)
+    except Exception:  # pylint: disable=broad-except
+        pass
+    out2 = fmt(call())
+    return out if out == out2 else used.unstable(out, out2)
+
+
+def probe(m):
+    """a few cheap queries whose answers depend on everything a pattern object may keep between calls"""
+    n = len(m)
+    cells = [c for c in ((0, 0), (n, n), (n // 2, (n + 1) // 2)) if c not in m.shading]
+    return (tuple(m.pattern), sorted(m.shading), [m.can_shade(c) for c in cells], sorted(m.rotate(1).shading),
+            m.is_shaded((0, 0), (min(1, n), min(1, n))), m.has_anchored_point(), hash(m),
+            sorted(m.sub_mesh_pattern(range(n)).shading))
+
+
+def fresh_like(r):
+    """fmp(r) for a pattern object r RETURNED by the call under test; on the selected lines r must in addition
+    answer `probe` like a newly constructed pattern with the same underlying permutation and shading"""
+    if not _DERIVE[0] or len(r) > 12:
+        return fmp(r)
+    f = MeshPatt(Perm(tuple(r.pattern)), frozenset(r.shading))
+    a, b = used.quiet(lambda: probe(r)), used.quiet(lambda: probe(f))
+    return fmp(r) if a == b else used.unstable(fmp(r), "result object answers %r, a new one %r" % (a, b))
+
+
+def spoil_list(l):
+    l.append(-7)
+    l.reverse()
+
+
+def spoil_boxes(d):
+    for v in list(d.values()):
+        v.append(((0, 0),))
+        v.reverse()
+    d.clear()
+    d[-1]                      # (a defaultdict: looking a key up inserts it)
 
 
 def cell(s):
@@ -119,39 +186,75 @@ def pgroup(s):
 
 
 # ------------------------------------------------------------------------------ implementation side
+def _plain(op, a):
+    saved = _DERIVE[0]
+    _DERIVE[0] = False
+    try:
+        return _impl(op, a)
+    finally:
+        _DERIVE[0] = saved
+
+
+REDO_OPS = ("canshade", "cansimul", "cs", "css", "boxes", "sbl", "npb")     # ops that repeat their call themselves (redo)
+
+
 def impl(op, a):
+    n = a[0].count(",") + 1 if a and a[0] != "_" else 0
+    big = n >= 9
+    # selection: a deterministic twelfth of the lines (half of the 'large' stream, where deriving a long pattern costs
+    # milliseconds) run on an object with a past; the call under test is repeated on that object (by redo, with the
+    # first result damaged in between, or by a second evaluation of the line); 1 in 16 of the selected lines are
+    # preceded by the neighbouring calls (used.prelude)
+    _DERIVE[0] = used.digest("d~" + op, a) % (2 if big else 12) == 0
+    if not _DERIVE[0]:
+        return _impl(op, a)
+    if not big:
+        used.prelude(op, a, _plain, 16)
+    _OBJ.clear()
+    r1 = _impl(op, a)
+    if n >= 21 or op[4:] in REDO_OPS:
+        _OBJ.clear()
+        return r1
+    r2 = _impl(op, a)
+    _OBJ.clear()
+    return r1 if r1 == r2 else used.unstable(r1, r2)
+
+
+def _impl(op, a):
     op = op[4:] if op.startswith("c18.") else op
     if op == "shade":
-        return guarded(lambda: fmp(mk(a).shade(*pcells(a[2]))))
+        return guarded(lambda: fresh_like(mk(a).shade(*pcells(a[2]))))
     if op == "addpt":
-        return guarded(lambda: fmp(mk(a).add_point(cell(a[2]), int(a[3]))))
+        return guarded(lambda: fresh_like(mk(a).add_point(cell(a[2]), int(a[3]))))
     if op == "addinc":
-        return guarded(lambda: fmp(mk(a).add_increase(cell(a[2]))))
+        return guarded(lambda: fresh_like(mk(a).add_increase(cell(a[2]))))
     if op == "adddec":
-        return guarded(lambda: fmp(mk(a).add_decrease(cell(a[2]))))
+        return guarded(lambda: fresh_like(mk(a).add_decrease(cell(a[2]))))
     if op == "necond":
         return guarded(lambda: fbool(mk(a).north_east_shading_lemma_conditions(cell(a[2]))))
     if op == "nesimul":
         return guarded(lambda: fbool(mk(a).north_east_simul_shading_lemma_conditions(cell(a[2]), cell(a[3]))))
     if op == "canshade":
-        return guarded(lambda: fseq(mk(a).can_shade(cell(a[2]))))
+        return guarded(lambda: (lambda m: redo(lambda: m.can_shade(cell(a[2])), fseq, spoil_list))(mk(a)))
     if op == "cansimul":
-        return guarded(lambda: fseq(mk(a).can_simul_shade(cell(a[2]), cell(a[3]))))
+        return guarded(lambda: (lambda m: redo(lambda: m.can_simul_shade(cell(a[2]), cell(a[3])), fseq, spoil_list))(mk(a)))
     if op == "cs":
-        return guarded(lambda: fbool(bool(mk(a).can_shade(cell(a[2])))))
+        return guarded(lambda: (lambda m: redo(lambda: m.can_shade(cell(a[2])), lambda l: fbool(bool(l)), spoil_list))(mk(a)))
     if op == "css":
-        return guarded(lambda: fbool(bool(mk(a).can_simul_shade(cell(a[2]), cell(a[3])))))
+        return guarded(lambda: (lambda m: redo(lambda: m.can_simul_shade(cell(a[2]), cell(a[3])),
+                                               lambda l: fbool(bool(l)), spoil_list))(mk(a)))
     if op == "adj":
         return guarded(lambda: fbool(adj_ok(pseq(a[0]), [cell(a[2])], mk(a).can_shade(cell(a[2])))))
     if op == "adj2":
         return guarded(lambda: fbool(adj_ok(pseq(a[0]), [cell(a[2]), cell(a[3])],
                                             mk(a).can_simul_shade(cell(a[2]), cell(a[3])))))
     if op == "boxes":
-        return guarded(lambda: fboxes(dict(mk(a).shadable_boxes())))
+        return guarded(lambda: (lambda m: redo(m.shadable_boxes, lambda d: fboxes(dict(d)), spoil_boxes))(mk(a)))
     if op == "sbl":
         def f():
             g = pgroup(a[2])
-            return fbool(any(g in v for v in mk(a).shadable_boxes().values()))
+            m = mk(a)
+            return redo(m.shadable_boxes, lambda d: fbool(any(g in v for v in d.values())), spoil_boxes)
         return guarded(f)
     if op == "isshaded1":
         return guarded(lambda: fbool(mk(a).is_shaded(cell(a[2]))))
@@ -160,7 +263,7 @@ def impl(op, a):
     if op == "ispf":
         return guarded(lambda: fbool(mk(a).is_pointfree(cell(a[2]), cell(a[3]))))
     if op == "npb":
-        return guarded(lambda: fcells(mk(a).non_pointless_boxes()))
+        return guarded(lambda: (lambda m: redo(m.non_pointless_boxes, fcells, lambda s: s.clear()))(mk(a)))
     if op == "anchored":
         return guarded(lambda: "".join(fbool(b) for b in mk(a).has_anchored_point()))
     if op in ("plot", "plotl"):
@@ -459,6 +562,104 @@ def lines_for(p, sh, n, rng, full, smax, alldirs=True):
     return struct, sem
 
 
+BIG_SCALES = {"S": (9, 12), "M": (21, 40), "L": (64, 70), "X": (197, 204)}
+BENCH_PREFIX = "c18."
+
+
+def big_mesh(rng, n, scale):
+    """a long mesh pattern: any of the structured shadings of rand_mesh up to length 40, beyond that only the sparse
+    ones (few cells / whole rows and columns / built around a point so that the lemma's implications tend to hold)"""
+    while True:
+        p, sh = rand_mesh(rng, n)
+        if scale in "SM" or len(sh) <= 12 * (n + 1):
+            break
+    if rng.random() < 0.3:          # nearly monotone underlying permutation with the inversion near an end
+        q = list(range(n))
+        i = rng.choice([0, n - 2, n // 2, rng.randrange(n - 1)])
+        q[i], q[i + 1] = q[i + 1], q[i]
+        p = tuple(q)
+    return p, sh
+
+
+def near_cells(rng, p, sh, count):
+    """cells worth asking about in a long pattern: the four cells around a point, the corners and border of the
+    grid, neighbours of shaded cells, random ones"""
+    n = len(p)
+    res = []
+    for _ in range(count):
+        m = rng.randrange(5)
+        if m == 0 and n:
+            i = rng.choice([0, n - 1, rng.randrange(n)])
+            c = (i + rng.randrange(2), p[i] + rng.randrange(2))
+        elif m == 1:
+            c = (rng.choice([0, n]), rng.choice([0, n, rng.randrange(n + 1)]))
+        elif m == 2:
+            c = (rng.choice([0, n, rng.randrange(n + 1)]), rng.choice([0, n]))
+        elif m == 3 and sh:
+            x, y = rng.choice(sh)
+            c = (min(n, max(0, x + rng.randrange(-1, 2))), min(n, max(0, y + rng.randrange(-1, 2))))
+        else:
+            c = (rng.randrange(n + 1), rng.randrange(n + 1))
+        res.append(c)
+    return res
+
+
+def large_lines(rng, quick):
+    """the 'large' stream: the structural operations (no semantic verdicts: the oracle would need permutations longer
+    than the pattern) on patterns of length 9-12, 21-40, 64-70 and a few around 200.  Left out where one of the sides
+    needs more than about 0.2 s per line (measured): shadable_boxes beyond length 10 (it asks the lemma for every
+    cell and every adjacent pair), renderings beyond length 70."""
+    lines = []
+    mul = 1 if quick else 6
+    for scale, count in (("S", 30), ("M", 14), ("L", 6), ("X", 3)):
+        lo, hi = BIG_SCALES[scale]
+        for _ in range(count * mul):
+            n = rng.randint(lo, hi)
+            p, sh = big_mesh(rng, n, scale)
+            shs = set(sh)
+            pre = "%s %s" % (fseq(p), fcells(sh))
+            for c in near_cells(rng, p, sh, 3):
+                lines.append("canshade %s %s" % (pre, fc(c)))
+                lines.append("necond %s %s" % (pre, fc(c)))
+                lines.append("adj %s %s" % (pre, fc(c)))
+                lines.append("isshaded1 %s %s" % (pre, fc(c)))
+                lines.append("addpt %s %s %d" % (pre, fc(c), rng.randrange(-1, 4)))
+                if rng.random() < 0.5:
+                    lines.append("%s %s %s" % (rng.choice(["addinc", "adddec"]), pre, fc(c)))
+                d = rng.choice([(1, 0), (0, 1), (-1, 0), (0, -1)])
+                c2 = (c[0] + d[0], c[1] + d[1])
+                if 0 <= c2[0] <= n and 0 <= c2[1] <= n:
+                    lines.append("cansimul %s %s %s" % (pre, fc(c), fc(c2)))
+                    lines.append("adj2 %s %s %s" % (pre, fc(c), fc(c2)))
+                    hi2, lo2 = (c, c2) if c[1] >= c2[1] else (c2, c)
+                    lines.append("nesimul %s %s %s" % (pre, fc(hi2), fc(lo2)))
+                c3 = (min(n, c[0] + rng.randrange(0, 4)), min(n, c[1] + rng.randrange(0, 4)))
+                lines.append("isshaded %s %s %s" % (pre, fc(c), fc(c3)))
+                lines.append("ispf %s %s %s" % (pre, fc(c), fc(c3)))
+            lines.append("ispf %s 0.0 %d.%d" % (pre, rng.randrange(n + 1), n))
+            lines.append("shade %s %s" % (pre, fcells(near_cells(rng, p, sh, rng.randrange(0, 4)))))
+            lines.append("anchored " + pre)
+            lines.append("npb " + pre)
+            if n <= 10:
+                lines.append("boxes " + pre)
+            if scale != "X":
+                cs = rng.randrange(1, 4) if scale != "L" else 1
+                lines.append("%s %s %d" % (rng.choice(["plot", "plotl"]), pre, cs))
+                lines.append("plotrt %s %d" % (pre, cs))
+    # near misses that only show far from the start: a band over the whole width / a boundary row or column that is
+    # fully shaded except for one hole at the far end (meshlib.band_cases)
+    import meshlib
+    for p, sh, (l, b, r, t), hole in meshlib.band_cases(rng):
+        pre = "%s %s" % (fseq(p), fcells(sh))
+        lines.append("isshaded %s %d.%d %d.%d" % (pre, l, b, r, t))
+        lines.append("anchored " + pre)
+        if hole is not None:
+            lines.append("isshaded1 %s %d.%d" % (pre, hole[0], hole[1]))
+            lines.append("canshade %s %d.%d" % (pre, hole[0], hole[1]))
+            lines.append("addpt %s %d.%d %d" % (pre, hole[0], hole[1], rng.randrange(-1, 4)))
+    return lines
+
+
 def run(ctx):
     cmp0 = ctx.compare
 
@@ -524,6 +725,8 @@ def run(ctx):
         big.append("anchored " + pre)
         big.append("npb " + pre)
     cmp("random-len5-7-structure", big)
+    # ---- large: sizes the other streams never reach (structure only)
+    cmp("large", large_lines(rng, ctx.tier == "quick"))
     # ---- malformed: shaded target cell, out-of-range cells, bad sizes
     mal, malsem = [], []
     for p, sh in [((), []), ((0,), [(0, 0), (1, 1)]), ((1, 0), [(0, 2), (2, 2), (1, 1)]), ((0, 2, 1), [(3, 3), (0, 0)])]:
